@@ -458,9 +458,14 @@ func c11Run(c *Ctx, withStops bool) {
 			}
 		}
 		orph := "no-orphans"
-		var orphans []string
+		var orphans, unreaped []string
 		for _, name := range names {
 			exists, isRunning := actor.VerifNameRegistered(s.Sys, name)
+			if exists && !isRunning {
+				// 300 ms after the last operation the death watch has had every chance: this node of a
+				// stopped actor will never be reaped (and never be uncounted)
+				unreaped = append(unreaped, name)
+			}
 			reg := 0
 			if exists && isRunning {
 				reg = 1
@@ -482,11 +487,15 @@ func c11Run(c *Ctx, withStops bool) {
 			orph = "rolled-back-spawns"
 			orphans = append(orphans, fmt.Sprintf("%d spawn(s) were started and rolled back by goakt", rolledBack))
 		}
+		if orph == "no-orphans" && dir == "too-high" && len(unreaped) >= int(n)-running {
+			orph = "unreaped-nodes"
+			orphans = append(orphans, fmt.Sprintf("tree nodes of stopped actors never reaped: %v", unreaped))
+		}
 		q := ":no-stop"
 		if len(st.stopIssued) > 0 {
 			q = ":after-stop" // some name was stopped (Kill, parent stop, passivation, supervisor stop) during the run
 		}
-		c.Fail("actor-count-mismatch", "NumActors:"+dir+":"+orph+q, "at quiescence NumActors()=%d but %d user actors are running %v; running instances not registered in the tree: %v; log tail: %s", n, running, who, orphans, s.Tail(30))
+		c.Fail("actor-count-mismatch", "NumActors:"+dir+":"+orph+q, "at quiescence NumActors()=%d but %d user actors are running %v; running instances not registered in the tree: %v; log tail: %s", n, running, who, orphans, s.Tail(90))
 	}
 	_ = s.Stop()
 }
